@@ -61,6 +61,15 @@ theorem heap_sort_sorted_perm (a : Array Elem) (h : a.size + 1 < 2147483648) :
     ∃ r, heapSort a = .ok (some r) ∧ Sorted r.toList ∧ r.toList.Perm a.toList :=
   heapSort_spec a h
 
+/-- the documented capacity limit of heap sort: for `2^31 - 1 ≤ count < 2^32 - 1`
+`muggle_heap_init` refuses the capacity `(uint32_t)count + 1` and the routine returns false
+without touching the array (this is why `heap_sort_sorted_perm` carries the size bound). -/
+theorem heap_sort_refuses_beyond_capacity (a : Array Elem) (h1 : 2147483648 ≤ a.size + 1)
+    (h2 : a.size + 1 < 4294967296) : heapSort a = .ok none := by
+  unfold heapSort
+  have hcap : (a.size % 4294967296 + 1) % 4294967296 = a.size + 1 := by omega
+  rw [hcap, (init_none_iff (a.size + 1)).mpr h1]
+
 /-- **C10, merge sort** (top-down over `[0, count-1]`, `center = (l+r)/2`, `≤` takes the
 left run; patched entry point).  Every array, including lengths 0 and 1. -/
 theorem merge_sort_sorted_perm (a : Array Elem) :
@@ -129,6 +138,29 @@ theorem heap_insert_multiset {h : Heap} (x : Elem) (inv : HeapInv h) (hsz : h.si
     ∃ h', h.insert x = .ok (some h') ∧ HeapInv h' ∧ (entries h').Perm (x :: entries h) := by
   obtain ⟨h', e1, e2, e3, _⟩ := insert_spec x inv (by omega)
   exact ⟨h', e1, e2, e3⟩
+
+/-- insert returns false exactly when the heap is full and the doubled capacity is refused
+by `MUGGLE_DS_CAP_IS_VALID` (then nothing changed: the model returns no new heap) -/
+theorem heap_insert_refuses_iff {h : Heap} (x : Elem) (inv : HeapInv h) (hcap : 1 ≤ h.cap) :
+    h.insert x = .ok none ↔ (h.cap = h.size ∧ 2147483648 ≤ h.cap * 2) :=
+  insert_none_iff x inv hcap
+
+/-- `muggle_heap_clear` leaves a valid empty heap; `muggle_heap_ensure_capacity` never touches
+the contents -/
+theorem heap_clear_ensure {h : Heap} (c : Nat) :
+    HeapInv h.clear ∧ entries h.clear = [] ∧
+    (∀ h', h.ensureCapacity c = some h' → h'.nodes = h.nodes ∧ h.cap ≤ h'.cap) := by
+  refine ⟨⟨by simp [Heap.clear], ?_⟩, by simp [Heap.clear, entries], ?_⟩
+  · intro i h1 h2
+    simp [Heap.clear] at h2
+    omega
+  · intro h' he
+    unfold Heap.ensureCapacity at he
+    split at he
+    · injection he with he; subst he; exact ⟨rfl, Nat.le_refl _⟩
+    · split at he
+      · cases he
+      · injection he with he; subst he; exact ⟨rfl, by simp; omega⟩
 
 /-- **C10, root.** `muggle_heap_root` returns NULL exactly on the empty heap and otherwise
 an entry of the heap whose key is a minimum of the current contents. -/
